@@ -1,5 +1,6 @@
 (* C01 — proofs over the hub LTS: an inductive invariant that gives convergence at every quiescent state, for every
-   trace (any length, any interleaving of passes, evaluations, write completions, source changes and expression assignments). *)
+   trace (any length, any interleaving of passes, evaluations, write completions, source changes, expression assignments,
+   enable / disable). *)
 From QT Require Import C01.Hub.
 From Coq Require Import Lia.
 Open Scope nat_scope.
@@ -17,26 +18,31 @@ Section HubThm.
 
   Notation port := (port V E).
   Notation state := (state V E).
-  Notation step := (step V veqb E W feval deps coerce true).        (* the evaluation task refreshes after its write *)
-  Notation run := (run V veqb E W feval deps coerce true).
+  (* the evaluation task refreshes after its write; enable() forces the evaluation of all expressions *)
+  Notation step := (step V veqb E W feval deps coerce true true).
+  Notation run := (run V veqb E W feval deps coerce true true).
   Notation lasts := (lasts V E).
-  Notation follows := (follows V veqb E W feval coerce).
+  Notation dep_off := (dep_off V E deps).
+  Notation follows := (follows V veqb E W feval deps coerce).
   Notation quiescent := (quiescent V veqb E).
 
-  (* the value the expression of q asks for under the snapshot L (None: evaluation / coercion error — the property is silent) *)
-  Definition target (L : snap V) (q : pid) (e : E) : option (option V) :=
-    match feval e L with
-    | OErr => None
-    | OVal v => match coerce q v with OErr => None | OVal v' => Some v' end
-    end.
+  (* the value the expression of q asks for in state s (None: a dependency is disabled, or evaluation / coercion error —
+     the property is silent) *)
+  Definition target (s : state) (q : pid) (e : E) : option (option V) :=
+    if dep_off s e then None
+    else match feval e (lasts s) with
+         | OErr => None
+         | OVal v => match coerce q v with OErr => None | OVal v' => Some v' end
+         end.
 
   Definition agree (l : list pid) (s1 s2 : snap V) : Prop := forall d, In d l -> s1 d = s2 d.
 
-  Lemma target_agree e q L1 L2 : agree (deps e) L1 L2 -> target L1 q e = target L2 q e.
-  Proof. intros H. unfold target. rewrite (frame e L1 L2 H). reflexivity. Qed.
+  Lemma target_ext s s' q e :
+    dep_off s' e = dep_off s e -> agree (deps e) (lasts s') (lasts s) -> target s' q e = target s q e.
+  Proof. intros Hd Ha. unfold target. rewrite Hd, (frame e _ _ Ha). reflexivity. Qed.
 
-  Definition settled (L : snap V) (q : pid) (e : E) (x : port) : Prop :=
-    match target L q e with
+  Definition settled (s : state) (q : pid) (e : E) (x : port) : Prop :=
+    match target s q e with
     | None => True
     | Some g => match ph x with Writing v => v = g | _ => src x = g end
     end.
@@ -48,10 +54,13 @@ Section HubThm.
   (* the coverage invariant for one port with an expression *)
   Definition covered (s : state) (q : pid) (e : E) : Prop :=
     let x := ports s q in
-    forced x = true
+    en x = false
+    \/ forced x = true
+    \/ force_all s = true
     \/ (exists d, In d (deps e) /\ In d (changed_of s))
+    \/ dep_off s e = true
     \/ (exists sn, is_last (evq x) sn /\ agree (deps e) sn (lasts s))
-    \/ (evq x = [] /\ settled (lasts s) q e x).
+    \/ (evq x = [] /\ settled s q e x).
 
   Record Inv (s : state) : Prop := {
     inv_cov : forall q e, In q (all_ids s) -> expr (ports s q) = Some e -> covered s q e;
@@ -61,11 +70,13 @@ Section HubThm.
                exists ps, pass s = Some ps /\ (In q (to_read ps) \/ src (ports s q) = last (ports s q));
     inv_toread : forall ps, pass s = Some ps -> incl (to_read ps) (all_ids s);
     inv_noself : forall q e, In q (all_ids s) -> expr (ports s q) = Some e -> ~ In q (deps e);
-    inv_idle : forall q, In q (all_ids s) -> expr (ports s q) = None -> ph (ports s q) = Idle
+    inv_idle : forall q, In q (all_ids s) -> expr (ports s q) = None -> ph (ports s q) = Idle;
+    inv_off : forall q, In q (all_ids s) -> en (ports s q) = false -> ph (ports s q) = Idle /\ evq (ports s q) = []
   }.
 
-  (* events the theorem quantifies over: they concern registered ports; an expression is assigned to a port that is at rest
-     (no queued evaluation, task idle, last read value current) and does not read its own port *)
+  (* events the theorem quantifies over: they concern registered ports; an expression is assigned to, and a port is
+     disabled, when the port is at rest (no queued evaluation, task idle, last read value current); expressions do not read
+     their own port *)
   Definition wf_event (s : state) (ev : event V E) : Prop :=
     match ev with
     | Eval q | WriteEnd q => In q (all_ids s)
@@ -73,6 +84,8 @@ Section HubThm.
     | SetExpr q e =>
         In q (all_ids s) /\ ~ In q (deps e) /\ evq (ports s q) = [] /\ ph (ports s q) = Idle
         /\ src (ports s q) = last (ports s q)
+    | Enable p => In p (all_ids s)
+    | Disable p => In p (all_ids s) /\ evq (ports s p) = [] /\ ph (ports s p) = Idle
     | _ => True
     end.
 
@@ -89,22 +102,19 @@ Section HubThm.
     - intros H. exists p. split; [exact H|apply Nat.eqb_refl].
   Qed.
 
-  Lemma lasts_in s p : In p (all_ids s) -> lasts s p = last (ports s p).
-  Proof. intros H. unfold lasts. apply mem_In in H. unfold mem in H. rewrite H. reflexivity. Qed.
-
-  Lemma lasts_out s p : ~ In p (all_ids s) -> lasts s p = None.
-  Proof.
-    intros H. unfold lasts. destruct (existsb (Nat.eqb p) (all_ids s)) eqn:Hm; [|reflexivity].
-    exfalso. apply H. apply mem_In. exact Hm.
-  Qed.
-
-  (* two states with the same registry and the same last values have the same snapshot *)
+  (* two states with the same registry, enabled flags and last values have the same snapshot *)
   Lemma lasts_ext s s' :
-    all_ids s' = all_ids s -> (forall p, In p (all_ids s) -> last (ports s' p) = last (ports s p)) ->
+    all_ids s' = all_ids s ->
+    (forall p, In p (all_ids s) -> last (ports s' p) = last (ports s p) /\ en (ports s' p) = en (ports s p)) ->
     forall p, lasts s' p = lasts s p.
   Proof.
-    intros Hid Hl p. unfold lasts. rewrite Hid. destruct (existsb (Nat.eqb p) (all_ids s)) eqn:Hm; [|reflexivity].
-    apply Hl. apply mem_In. exact Hm.
+    intros Hid Hl p. unfold Hub.lasts. rewrite Hid. destruct (existsb (Nat.eqb p) (all_ids s)) eqn:Hm; [|reflexivity].
+    assert (Hin : In p (all_ids s)) by (apply mem_In; exact Hm). destruct (Hl p Hin) as [H1 H2]. rewrite H1, H2. reflexivity.
+  Qed.
+
+  Lemma dep_off_ext s s' e : (forall d, en (ports s' d) = en (ports s d)) -> dep_off s' e = dep_off s e.
+  Proof.
+    intros H. unfold Hub.dep_off. induction (deps e) as [|d l IH]; [reflexivity|]. cbn [existsb]. rewrite H, IH. reflexivity.
   Qed.
 
   Lemma upd_eq (f : pid -> port) p x : upd V E f p x p = x.
@@ -115,17 +125,22 @@ Section HubThm.
 
   (* ---------------- transporting [covered] between states that agree on what it looks at *)
   Lemma covered_ext s s' q e :
-    ports s' q = ports s q -> (forall p, lasts s' p = lasts s p) ->
+    ports s' q = ports s q -> (force_all s = true -> force_all s' = true) ->
+    (forall d, en (ports s' d) = en (ports s d)) -> (forall p, lasts s' p = lasts s p) ->
     (forall d, In d (changed_of s) -> In d (changed_of s')) ->
     covered s q e -> covered s' q e.
   Proof.
-    intros Hp HL Hc Hcov. unfold covered in *. rewrite Hp.
-    destruct Hcov as [Hf|[(d & Hd & Hin)|[(sn & Hl & Ha)|(Hq & Hs)]]].
-    - left. exact Hf.
-    - right. left. exists d. split; [exact Hd|apply Hc; exact Hin].
-    - right. right. left. exists sn. split; [exact Hl|]. intros d Hd. rewrite HL. apply Ha. exact Hd.
-    - right. right. right. split; [exact Hq|]. unfold settled in *.
-      rewrite (target_agree e q (lasts s') (lasts s)); [exact Hs|]. intros d _. apply HL.
+    intros Hp Hfa Hen HL Hc Hcov. unfold covered in *. rewrite Hp.
+    pose proof (dep_off_ext s s' e Hen) as Hdo.
+    destruct Hcov as [H|[H|[H|[(d & Hd & Hin)|[H|[(sn & Hl & Ha)|(Hq & Hs)]]]]]].
+    - left. exact H.
+    - right. left. exact H.
+    - right. right. left. apply Hfa. exact H.
+    - right. right. right. left. exists d. split; [exact Hd|apply Hc; exact Hin].
+    - right. right. right. right. left. rewrite Hdo. exact H.
+    - right. right. right. right. right. left. exists sn. split; [exact Hl|]. intros d Hd. rewrite HL. apply Ha. exact Hd.
+    - right. right. right. right. right. right. split; [exact Hq|]. unfold settled in *.
+      rewrite (target_ext s s' q e Hdo); [exact Hs|]. intros d _. apply HL.
   Qed.
 
   Lemma set_port_other s p x q : q <> p -> ports (set_port V E s p x) q = ports s q.
@@ -134,30 +149,39 @@ Section HubThm.
   Lemma set_port_same s p x : ports (set_port V E s p x) p = x.
   Proof. unfold set_port. cbn [ports]. apply upd_eq. Qed.
 
-  Lemma lasts_set_port s p x : last x = last (ports s p) -> forall r, lasts (set_port V E s p x) r = lasts s r.
+  Lemma en_set_port s p x : en x = en (ports s p) -> forall d, en (ports (set_port V E s p x) d) = en (ports s d).
   Proof.
-    intros H r. apply lasts_ext; [reflexivity|]. intros r' _.
-    destruct (Nat.eq_dec r' p) as [->|Hn]; [rewrite set_port_same; exact H|rewrite set_port_other by exact Hn; reflexivity].
+    intros H d. destruct (Nat.eq_dec d p) as [->|Hn]; [rewrite set_port_same; exact H|rewrite set_port_other by exact Hn; reflexivity].
   Qed.
 
-  (* an event that touches one port without changing its last read value, the registry or the running pass *)
+  Lemma lasts_set_port s p x :
+    last x = last (ports s p) -> en x = en (ports s p) -> forall r, lasts (set_port V E s p x) r = lasts s r.
+  Proof.
+    intros H He r. apply lasts_ext; [reflexivity|]. intros r' _.
+    destruct (Nat.eq_dec r' p) as [->|Hn]; [rewrite set_port_same; split; assumption|rewrite set_port_other by exact Hn; split; reflexivity].
+  Qed.
+
+  (* an event that touches one port without changing its last read value, its enabled flag, the registry, the running pass
+     or the global force flag *)
   Lemma inv_local s p x :
-    Inv s -> In p (all_ids s) -> last x = last (ports s p) ->
+    Inv s -> In p (all_ids s) -> last x = last (ports s p) -> en x = en (ports s p) ->
     (forall e, expr x = Some e -> covered (set_port V E s p x) p e) ->
     (expr x <> None -> (ph x = Idle \/ exists v, ph x = Writing v) -> src x = last x) ->
     (ph x = Refreshing -> ph (ports s p) = Refreshing /\ src x = src (ports s p)) ->
     (forall e, expr x = Some e -> ~ In p (deps e)) ->
     (expr x = None -> ph x = Idle) ->
+    (en x = false -> ph x = Idle /\ evq x = []) ->
     Inv (set_port V E s p x).
   Proof.
-    intros HI Hp Hlast Hcov Hsync Hrefr Hnoself Hidle.
-    pose proof (lasts_set_port s p x Hlast) as HL.
+    intros HI Hp Hlast Hen Hcov Hsync Hrefr Hnoself Hidle Hoff.
+    pose proof (lasts_set_port s p x Hlast Hen) as HL.
+    pose proof (en_set_port s p x Hen) as HE.
     constructor.
     - intros q e Hq He. cbn [all_ids set_port] in Hq.
       destruct (Nat.eq_dec q p) as [->|Hn].
       + rewrite set_port_same in He. apply Hcov. exact He.
       + rewrite set_port_other in He by exact Hn.
-        apply (covered_ext s); [apply set_port_other; exact Hn|exact HL|intros d Hd; exact Hd|].
+        apply (covered_ext s); [apply set_port_other; exact Hn|intros H; exact H|exact HE|exact HL|intros d Hd; exact Hd|].
         apply (inv_cov s HI); assumption.
     - intros q Hq He Hph. cbn [all_ids set_port] in Hq.
       destruct (Nat.eq_dec q p) as [->|Hn].
@@ -178,6 +202,10 @@ Section HubThm.
       destruct (Nat.eq_dec q p) as [->|Hn].
       + rewrite set_port_same in *. apply Hidle; exact He.
       + rewrite set_port_other in * by exact Hn. apply (inv_idle s HI); assumption.
+    - intros q Hq He. cbn [all_ids set_port] in Hq.
+      destruct (Nat.eq_dec q p) as [->|Hn].
+      + rewrite set_port_same in *. apply Hoff; exact He.
+      + rewrite set_port_other in * by exact Hn. apply (inv_off s HI); assumption.
   Qed.
 
   Lemma veqb_refl a : veqb a a = true.
@@ -197,106 +225,135 @@ Section HubThm.
     - cbn in H. injection H as _ H. destruct l'; discriminate.
   Qed.
 
+  (* the disjuncts of [covered] that do not look at the port's queue / phase / driver value survive a local change *)
+  Lemma covered_local s p x e :
+    last x = last (ports s p) -> en x = en (ports s p) -> forced x = forced (ports s p) ->
+    covered s p e ->
+    (forall sn, is_last (evq (ports s p)) sn -> agree (deps e) sn (lasts s) ->
+       (exists sn', is_last (evq x) sn' /\ agree (deps e) sn' (lasts s)) \/ (evq x = [] /\ settled s p e x) \/ dep_off s e = true) ->
+    (evq (ports s p) = [] -> settled s p e (ports s p) -> evq x = [] /\ settled s p e x) ->
+    covered (set_port V E s p x) p e.
+  Proof.
+    intros Hlast Hen Hfo Hc Hq Hs. unfold covered in *. rewrite set_port_same.
+    pose proof (lasts_set_port s p x Hlast Hen) as HL. pose proof (en_set_port s p x Hen) as HE.
+    pose proof (dep_off_ext s (set_port V E s p x) e HE) as Hdo.
+    assert (Hset : forall y, settled s p e y -> settled (set_port V E s p x) p e y).
+    { intros y Hy. unfold settled in *. rewrite (target_ext s _ p e Hdo); [exact Hy|]. intros d _. apply HL. }
+    destruct Hc as [H|[H|[H|[(d & Hd & Hin)|[H|[(sn & Hl & Ha)|(Hev & Hst)]]]]]].
+    - left. rewrite Hen. exact H.
+    - right. left. rewrite Hfo. exact H.
+    - right. right. left. exact H.
+    - right. right. right. left. exists d. split; [exact Hd|exact Hin].
+    - right. right. right. right. left. rewrite Hdo. exact H.
+    - destruct (Hq sn Hl Ha) as [(sn' & Hl' & Ha')|[(He' & Hs')|Hd']].
+      + right. right. right. right. right. left. exists sn'. split; [exact Hl'|]. intros d Hd. rewrite HL. apply Ha'. exact Hd.
+      + right. right. right. right. right. right. split; [exact He'|apply Hset; exact Hs'].
+      + right. right. right. right. left. rewrite Hdo. exact Hd'.
+    - destruct (Hs Hev Hst) as [He' Hs']. right. right. right. right. right. right. split; [exact He'|apply Hset; exact Hs'].
+  Qed.
+
   (* ---------------- SourceSet *)
   Lemma inv_SourceSet s p v s' : Inv s -> wf_event s (SourceSet p v) -> step s (SourceSet p v) = Some s' -> Inv s'.
   Proof.
-    intros HI Hwf H. cbn [step wf_event] in *. destruct (expr (ports s p)) eqn:Ee; [discriminate|]. injection H as <-.
-    apply inv_local; cbn [src last expr evq ph forced]; try assumption; try reflexivity.
+    intros HI Hwf H. cbn [Hub.step wf_event] in *. destruct (expr (ports s p)) eqn:Ee; [discriminate|]. injection H as <-.
+    apply inv_local; cbn [src last expr evq ph forced en]; try assumption; try reflexivity.
     - intros e He. discriminate.
     - intros He. contradiction.
     - intros Hph. rewrite (inv_idle s HI p Hwf Ee) in Hph. discriminate.
     - intros e He. discriminate.
     - intros _. apply (inv_idle s HI p Hwf Ee).
+    - intros He. apply (inv_off s HI p Hwf He).
   Qed.
 
   (* ---------------- SetExpr *)
   Lemma inv_SetExpr s q e s' : Inv s -> wf_event s (SetExpr q e) -> step s (SetExpr q e) = Some s' -> Inv s'.
   Proof.
-    intros HI (Hq & Hns & Hevq & Hph & Hsl) H. cbn [step] in H. injection H as <-.
-    apply inv_local; cbn [src last expr evq ph forced]; try assumption; try reflexivity.
-    - intros e' _. left. rewrite set_port_same. reflexivity.
+    intros HI (Hq & Hns & Hevq & Hph & Hsl) H. cbn [Hub.step] in H. injection H as <-.
+    apply inv_local; cbn [src last expr evq ph forced en]; try assumption; try reflexivity.
+    - intros e' _. right. left. rewrite set_port_same. reflexivity.
     - intros _ _. exact Hsl.
     - intros Hr. rewrite Hph in Hr. discriminate.
     - intros e' He. injection He as <-. exact Hns.
     - intros He. discriminate.
+    - intros _. split; assumption.
   Qed.
 
   (* ---------------- WriteEnd *)
   Lemma inv_WriteEnd s q s' : Inv s -> wf_event s (WriteEnd q) -> step s (WriteEnd q) = Some s' -> Inv s'.
   Proof.
-    intros HI Hq H. cbn [step wf_event] in *. destruct (ph (ports s q)) as [|v| |] eqn:Eph; try discriminate. injection H as <-.
+    intros HI Hq H. cbn [Hub.step wf_event] in *. destruct (ph (ports s q)) as [|v| |] eqn:Eph; try discriminate. injection H as <-.
     assert (Hexpr : expr (ports s q) <> None).
     { intros He. rewrite (inv_idle s HI q Hq He) in Eph. discriminate. }
-    apply inv_local; cbn [src last expr evq ph forced]; try assumption; try reflexivity.
-    - intros e He. pose proof (inv_cov s HI q e Hq He) as Hc. unfold covered in *. rewrite set_port_same.
-      cbn [src last expr evq ph forced].
-      destruct Hc as [Hf|[(d & Hd & Hin)|[(sn & Hl & Ha)|(Hev & Hs)]]].
-      + left. exact Hf.
-      + right. left. exists d. split; [exact Hd|exact Hin].
-      + right. right. left. exists sn. split; [exact Hl|]. intros d Hd. rewrite lasts_set_port by reflexivity. apply Ha. exact Hd.
-      + right. right. right. split; [exact Hev|]. unfold settled in *. cbn [src ph].
-        rewrite (target_agree e q _ (lasts s)) by (intros d _; apply lasts_set_port; reflexivity).
-        destruct (target (lasts s) q e) as [g|]; [|exact I]. rewrite Eph in Hs. exact Hs.
+    assert (Hon : en (ports s q) = false -> False).
+    { intros He. rewrite (proj1 (inv_off s HI q Hq He)) in Eph. discriminate. }
+    apply inv_local; cbn [src last expr evq ph forced en]; try assumption; try reflexivity.
+    - intros e He. apply covered_local; cbn [src last expr evq ph forced en]; try reflexivity.
+      + apply (inv_cov s HI q e Hq He).
+      + intros sn Hl Ha. left. exists sn. split; assumption.
+      + intros Hev Hst. split; [exact Hev|]. unfold settled in *. destruct (target s q e) as [g|]; [|exact I].
+        cbn [ph src]. rewrite Eph in Hst. exact Hst.
     - intros _ [Hc|[w Hc]]; discriminate.
     - intros Hc. discriminate.
     - intros e He. apply (inv_noself s HI q e Hq He).
     - intros He. contradiction.
+    - intros He. exfalso. apply Hon. exact He.
   Qed.
 
   (* ---------------- Eval *)
   Lemma inv_Eval s q s' : Inv s -> wf_event s (Eval q) -> step s (Eval q) = Some s' -> Inv s'.
   Proof.
-    intros HI Hq H. cbn [step wf_event] in *.
+    intros HI Hq H. cbn [Hub.step wf_event] in *.
     destruct (ph (ports s q)) eqn:Eph; try discriminate.
     destruct (evq (ports s q)) as [|sn rest] eqn:Eevq; [discriminate|].
     destruct (expr (ports s q)) as [e|] eqn:Eexpr; [|discriminate].
     assert (Hsync : src (ports s q) = last (ports s q)).
     { apply (inv_sync s HI q Hq); [rewrite Eexpr; discriminate|left; exact Eph]. }
+    assert (Hon : en (ports s q) = false -> False).
+    { intros He. rewrite (proj2 (inv_off s HI q Hq He)) in Eevq. discriminate. }
     pose proof (inv_cov s HI q e Hq Eexpr) as Hc.
     pose proof (inv_noself s HI q e Hq Eexpr) as Hns.
     (* the port after the evaluation, for either phase *)
     assert (Hgen : forall newph,
       (newph = Idle \/ exists v', newph = Writing v') ->
-      (rest = [] -> agree (deps e) sn (lasts s) ->
-         match target (lasts s) q e with
+      (rest = [] -> agree (deps e) sn (lasts s) -> dep_off s e = false ->
+         match target s q e with
          | None => True
          | Some g => match newph with Writing v => v = g | _ => src (ports s q) = g end
          end) ->
       Inv (set_port V E s q {| src := src (ports s q); last := last (ports s q); expr := Some e;
-                               evq := rest; ph := newph; forced := forced (ports s q) |})).
+                               evq := rest; ph := newph; forced := forced (ports s q); en := en (ports s q) |})).
     { intros newph Hnew Hset.
-      apply inv_local; cbn [src last expr evq ph forced]; try assumption; try reflexivity.
+      apply inv_local; cbn [src last expr evq ph forced en]; try assumption; try reflexivity.
       - intros e' He'. injection He' as <-.
-        unfold covered in *. rewrite set_port_same. cbn [src last expr evq ph forced]. rewrite Eevq in Hc.
-        destruct Hc as [Hf|[(d & Hd & Hin)|[(sn' & Hl & Ha)|(Hev & Hs)]]].
-        + left. exact Hf.
-        + right. left. exists d. split; [exact Hd|exact Hin].
-        + destruct rest as [|r0 rest'] eqn:Er.
-          * right. right. right. split; [reflexivity|].
-            apply is_last_single in Hl. subst sn'. unfold settled. cbn [src ph].
-            rewrite (target_agree e q _ (lasts s)) by (intros d _; apply lasts_set_port; reflexivity).
-            apply Hset; [reflexivity|exact Ha].
-          * right. right. left. exists sn'. split; [apply (is_last_tail sn); [exact Hl|discriminate]|].
-            intros d Hd. rewrite lasts_set_port by reflexivity. apply Ha. exact Hd.
-        + discriminate.
+        apply covered_local; cbn [src last expr evq ph forced en]; try reflexivity; [exact Hc| |].
+        + intros sn' Hl Ha. rewrite Eevq in Hl. destruct rest as [|r0 rest'] eqn:Er.
+          * apply is_last_single in Hl. subst sn'.
+            destruct (dep_off s e) eqn:Edo; [right; right; reflexivity|].
+            right. left. split; [reflexivity|]. unfold settled. cbn [ph src]. apply Hset; [reflexivity|exact Ha|reflexivity].
+          * left. exists sn'. split; [apply (is_last_tail sn); [exact Hl|discriminate]|exact Ha].
+        + intros Hev. rewrite Eevq in Hev. discriminate.
       - intros _ _. exact Hsync.
       - intros Hr. destruct Hnew as [->|[v' ->]]; discriminate.
       - intros e' He'. injection He' as <-. exact Hns.
-      - intros He'. discriminate. }
+      - intros He'. discriminate.
+      - intros He. exfalso. apply Hon. exact He. }
+    fold (dep_off s e) in H.
+    destruct (dep_off s e) eqn:Edo.
+    { injection H as <-. apply Hgen; [left; reflexivity|]. intros _ _ Hc'. discriminate. }
     destruct (feval e sn) as [v|] eqn:Ef.
-    2:{ injection H as <-. apply Hgen; [left; reflexivity|]. intros _ Ha. unfold target. rewrite <- (frame e sn (lasts s) Ha), Ef. exact I. }
+    2:{ injection H as <-. apply Hgen; [left; reflexivity|]. intros _ Ha _. unfold target. rewrite Edo, <- (frame e sn (lasts s) Ha), Ef. exact I. }
     destruct (coerce q v) as [v'|] eqn:Ec.
-    2:{ injection H as <-. apply Hgen; [left; reflexivity|]. intros _ Ha. unfold target. rewrite <- (frame e sn (lasts s) Ha), Ef, Ec. exact I. }
+    2:{ injection H as <-. apply Hgen; [left; reflexivity|]. intros _ Ha _. unfold target. rewrite Edo, <- (frame e sn (lasts s) Ha), Ef, Ec. exact I. }
     destruct (veqb v' (last (ports s q))) eqn:Ev; injection H as <-.
-    - apply Hgen; [left; reflexivity|]. intros _ Ha. unfold target. rewrite <- (frame e sn (lasts s) Ha), Ef, Ec.
+    - apply Hgen; [left; reflexivity|]. intros _ Ha _. unfold target. rewrite Edo, <- (frame e sn (lasts s) Ha), Ef, Ec.
       apply veqb_spec in Ev. rewrite Hsync. symmetry. exact Ev.
-    - apply Hgen; [right; exists v'; reflexivity|]. intros _ Ha. unfold target. rewrite <- (frame e sn (lasts s) Ha), Ef, Ec. reflexivity.
+    - apply Hgen; [right; exists v'; reflexivity|]. intros _ Ha _. unfold target. rewrite Edo, <- (frame e sn (lasts s) Ha), Ef, Ec. reflexivity.
   Qed.
 
   (* ---------------- PassBegin *)
   Lemma begin_refresh_fields (x : port) :
     src (begin_refresh V E x) = src x /\ last (begin_refresh V E x) = last x /\ expr (begin_refresh V E x) = expr x
-    /\ evq (begin_refresh V E x) = evq x /\ forced (begin_refresh V E x) = forced x.
+    /\ evq (begin_refresh V E x) = evq x /\ forced (begin_refresh V E x) = forced x /\ en (begin_refresh V E x) = en x.
   Proof. unfold begin_refresh. destruct (ph x); repeat split. Qed.
 
   Lemma settled_begin_refresh (x : port) (g : option V) :
@@ -306,23 +363,28 @@ Section HubThm.
 
   Lemma inv_PassBegin s s' : Inv s -> step s PassBegin = Some s' -> Inv s'.
   Proof.
-    intros HI H. cbn [step] in H. destruct (pass s) eqn:Ep; [discriminate|]. injection H as <-.
+    intros HI H. cbn [Hub.step] in H. destruct (pass s) eqn:Ep; [discriminate|]. injection H as <-.
     set (s' := {| ports := fun q => begin_refresh V E (ports s q); all_ids := all_ids s;
-                  pass := Some {| to_read := all_ids s; changed := [] |} |}).
+                  pass := Some {| to_read := all_ids s; changed := [] |}; force_all := force_all s |}).
+    assert (HE : forall d, en (ports s' d) = en (ports s d)) by (intros d; subst s'; cbn [ports]; apply (begin_refresh_fields (ports s d))).
     assert (HL : forall p, lasts s' p = lasts s p).
-    { apply lasts_ext; [reflexivity|]. intros p _. subst s'. cbn [ports]. apply (begin_refresh_fields (ports s p)). }
-    constructor; subst s'; cbn [ports all_ids pass].
-    - intros q e Hq He. destruct (begin_refresh_fields (ports s q)) as (Hs & Hl & Hx & Hv & Hf). rewrite Hx in He.
-      pose proof (inv_cov s HI q e Hq He) as Hc. unfold covered in *. cbn [ports]. rewrite Hf, Hv.
-      destruct Hc as [Hfo|[(d & Hd & Hin)|[(sn & Hla & Ha)|(Hev & Hst)]]].
-      + left. exact Hfo.
+    { apply lasts_ext; [reflexivity|]. intros p _. subst s'. cbn [ports]. split; apply (begin_refresh_fields (ports s p)). }
+    constructor; subst s'; cbn [ports all_ids pass force_all].
+    - intros q e Hq He. destruct (begin_refresh_fields (ports s q)) as (Hs & Hl & Hx & Hv & Hf & Hen). rewrite Hx in He.
+      pose proof (inv_cov s HI q e Hq He) as Hc. unfold covered in *. cbn [ports force_all]. rewrite Hf, Hv, Hen.
+      rewrite (dep_off_ext s _ e HE).
+      destruct Hc as [H|[H|[H|[(d & Hd & Hin)|[H|[(sn & Hla & Ha)|(Hev & Hst)]]]]]].
+      + left. exact H.
+      + right. left. exact H.
+      + right. right. left. exact H.
       + unfold changed_of in Hin. rewrite Ep in Hin. destruct Hin.
-      + right. right. left. exists sn. split; [exact Hla|]. intros d Hd. rewrite HL. apply Ha. exact Hd.
-      + right. right. right. split; [exact Hev|]. unfold settled in *.
-        rewrite (target_agree e q _ (lasts s)) by (intros d _; apply HL).
-        destruct (target (lasts s) q e) as [g|]; [|exact I]. rewrite Hs.
+      + right. right. right. right. left. exact H.
+      + right. right. right. right. right. left. exists sn. split; [exact Hla|]. intros d Hd. rewrite HL. apply Ha. exact Hd.
+      + right. right. right. right. right. right. split; [exact Hev|]. unfold settled in *.
+        rewrite (target_ext s _ q e (dep_off_ext s _ e HE)) by (intros d _; apply HL).
+        destruct (target s q e) as [g|]; [|exact I]. rewrite Hs.
         apply settled_begin_refresh. exact Hst.
-    - intros q Hq He Hph. destruct (begin_refresh_fields (ports s q)) as (Hs & Hl & Hx & Hv & Hf).
+    - intros q Hq He Hph. destruct (begin_refresh_fields (ports s q)) as (Hs & Hl & Hx & Hv & Hf & Hen).
       rewrite Hs, Hl. rewrite Hx in He. apply (inv_sync s HI q Hq He).
       unfold begin_refresh in Hph. destruct (ph (ports s q)) eqn:E0; cbn [ph] in Hph; rewrite ?E0 in Hph.
       + left. reflexivity.
@@ -331,28 +393,58 @@ Section HubThm.
       + destruct Hph as [Hc|[v Hc]]; discriminate.
     - intros q Hq Hph. eexists. split; [reflexivity|]. cbn [to_read]. left. exact Hq.
     - intros ps Hps. injection Hps as <-. cbn [to_read]. apply incl_refl.
-    - intros q e Hq He. destruct (begin_refresh_fields (ports s q)) as (_ & _ & Hx & _ & _). rewrite Hx in He.
+    - intros q e Hq He. destruct (begin_refresh_fields (ports s q)) as (_ & _ & Hx & _). rewrite Hx in He.
       apply (inv_noself s HI q e Hq He).
-    - intros q Hq He. destruct (begin_refresh_fields (ports s q)) as (_ & _ & Hx & _ & _). rewrite Hx in He.
+    - intros q Hq He. destruct (begin_refresh_fields (ports s q)) as (_ & _ & Hx & _). rewrite Hx in He.
       pose proof (inv_idle s HI q Hq He) as Hi. unfold begin_refresh. rewrite Hi. exact Hi.
+    - intros q Hq He. destruct (begin_refresh_fields (ports s q)) as (_ & _ & _ & Hv & _ & Hen). rewrite Hen in He.
+      destruct (inv_off s HI q Hq He) as [Hi Hq0]. rewrite Hv. split; [|exact Hq0]. unfold begin_refresh. rewrite Hi. exact Hi.
+  Qed.
+
+  (* ---------------- PassSkip *)
+  Lemma inv_PassSkip s p s' : Inv s -> step s (PassSkip p) = Some s' -> Inv s'.
+  Proof.
+    intros HI H. cbn [Hub.step] in H. destruct (pass s) as [[tr chg]|] eqn:Ep; [|discriminate].
+    destruct tr as [|p' rest]; [discriminate|]. destruct (Nat.eqb p p' && negb (en (ports s p))) eqn:Epp; [|discriminate].
+    apply andb_true_iff in Epp. destruct Epp as [Epp Een]. apply Nat.eqb_eq in Epp. subst p'. apply negb_true_iff in Een.
+    assert (Hp : In p (all_ids s)) by (apply (inv_toread s HI _ Ep); left; reflexivity).
+    injection H as <-.
+    set (s' := {| ports := ports s; all_ids := all_ids s; pass := Some {| to_read := rest; changed := chg |}; force_all := force_all s |}).
+    assert (HL : forall r, lasts s' r = lasts s r) by (intros r; reflexivity).
+    constructor; subst s'; cbn [ports all_ids pass force_all].
+    - intros q e Hq He.
+      apply (covered_ext s); [reflexivity|intros H; exact H|intros d; reflexivity|exact HL| |apply (inv_cov s HI q e Hq He)].
+      intros d Hd. unfold changed_of in *. cbn [pass changed]. rewrite Ep in Hd. exact Hd.
+    - apply (inv_sync s HI).
+    - intros q Hq Hph. exists {| to_read := rest; changed := chg |}. split; [reflexivity|]. cbn [to_read].
+      destruct (inv_refresh s HI q Hq Hph) as (ps & Hps & Hor). rewrite Ep in Hps. injection Hps as <-. cbn [to_read] in Hor.
+      destruct Hor as [[Heq|Hin]|Heq]; [|left; exact Hin|right; exact Heq].
+      subst q. rewrite (proj1 (inv_off s HI p Hp Een)) in Hph. discriminate.
+    - intros ps Hps. injection Hps as <-. cbn [to_read]. intros r Hr. apply (inv_toread s HI _ Ep). right. exact Hr.
+    - apply (inv_noself s HI).
+    - apply (inv_idle s HI).
+    - apply (inv_off s HI).
   Qed.
 
   (* ---------------- PassRead *)
   Lemma inv_PassRead s p s' : Inv s -> step s (PassRead p) = Some s' -> Inv s'.
   Proof.
-    intros HI H. cbn [step] in H. destruct (pass s) as [[tr chg]|] eqn:Ep; [|discriminate].
+    intros HI H. cbn [Hub.step] in H. destruct (pass s) as [[tr chg]|] eqn:Ep; [|discriminate].
     destruct tr as [|p' rest]; [discriminate|]. destruct (Nat.eqb p p') eqn:Epp; [|discriminate].
     apply Nat.eqb_eq in Epp. subst p'.
     assert (Hp : In p (all_ids s)) by (apply (inv_toread s HI _ Ep); left; reflexivity).
     set (x := ports s p) in *.
-    set (x' := {| src := src x; last := src x; expr := expr x; evq := evq x; ph := ph x; forced := forced x |}) in *.
+    set (x' := {| src := src x; last := src x; expr := expr x; evq := evq x; ph := ph x; forced := forced x; en := en x |}) in *.
     set (chg' := if veqb (src x) (last x) then chg else p :: chg) in *.
     injection H as <-.
-    set (s' := {| ports := upd V E (ports s) p x'; all_ids := all_ids s; pass := Some {| to_read := rest; changed := chg' |} |}).
+    set (s' := {| ports := upd V E (ports s) p x'; all_ids := all_ids s; pass := Some {| to_read := rest; changed := chg' |};
+                  force_all := force_all s |}).
     assert (Hother : forall q, q <> p -> ports s' q = ports s q) by (intros q Hn; subst s'; cbn [ports]; apply upd_neq; exact Hn).
     assert (Hsame : ports s' p = x') by (subst s'; cbn [ports]; apply upd_eq).
+    assert (HE : forall d, en (ports s' d) = en (ports s d)).
+    { intros d. destruct (Nat.eq_dec d p) as [->|Hn]; [rewrite Hsame; reflexivity|rewrite Hother by exact Hn; reflexivity]. }
     assert (HLo : forall r, r <> p -> lasts s' r = lasts s r).
-    { intros r Hn. unfold lasts. subst s'. cbn [all_ids ports]. rewrite upd_neq by exact Hn. reflexivity. }
+    { intros r Hn. unfold Hub.lasts. subst s'. cbn [all_ids ports]. rewrite upd_neq by exact Hn. reflexivity. }
     assert (Hchg : forall d, In d chg -> In d chg').
     { intros d Hd. subst chg'. destruct (veqb (src x) (last x)); [exact Hd|right; exact Hd]. }
     constructor.
@@ -364,31 +456,37 @@ Section HubThm.
                         /\ ph (ports s' q) = ph (ports s q) /\ src (ports s' q) = src (ports s q)).
       { destruct (Nat.eq_dec q p) as [->|Hn]; [rewrite Hsame; repeat split|rewrite Hother by exact Hn; repeat split]. }
       destruct Hfields as (Hfo & Hev & Hph & Hsr).
-      unfold covered in *. rewrite Hfo, Hev. unfold changed_of in *. rewrite Ep in Hc. subst s'. cbn [pass changed].
-      destruct Hc as [Hf|[(d & Hd & Hin)|Hrest]].
-      + left. exact Hf.
-      + right. left. exists d. split; [exact Hd|apply Hchg; exact Hin].
+      pose proof (dep_off_ext s s' e HE) as Hdo.
+      unfold covered in *. rewrite Hfo, Hev, HE, Hdo. unfold changed_of in *. rewrite Ep in Hc.
+      replace (force_all s') with (force_all s) by reflexivity. replace (pass s') with (Some {| to_read := rest; changed := chg' |}) by reflexivity.
+      cbn [changed].
+      destruct Hc as [H|[H|[H|[(d & Hd & Hin)|[H|Hrest]]]]].
+      + left. exact H.
+      + right. left. exact H.
+      + right. right. left. exact H.
+      + right. right. right. left. exists d. split; [exact Hd|apply Hchg; exact Hin].
+      + right. right. right. right. left. exact H.
       + destruct (veqb (src x) (last x)) eqn:Ev.
         * (* the value read is the one already known: nothing changes *)
           apply veqb_spec in Ev.
-          assert (HL : forall r, lasts {| ports := upd V E (ports s) p x'; all_ids := all_ids s; pass := Some {| to_read := rest; changed := chg' |} |} r = lasts s r).
+          assert (HL : forall r, lasts s' r = lasts s r).
           { intros r. destruct (Nat.eq_dec r p) as [->|Hn]; [|apply HLo; exact Hn].
-            unfold lasts. cbn [all_ids ports]. rewrite upd_eq. subst x'. cbn [last]. rewrite Ev. reflexivity. }
+            unfold Hub.lasts. subst s'. cbn [all_ids ports]. rewrite upd_eq. subst x'. cbn [last en]. rewrite Ev. reflexivity. }
           destruct Hrest as [(sn & Hla & Ha)|(Hevq & Hst)].
-          -- right. right. left. exists sn. split; [exact Hla|]. intros d Hd. rewrite HL. apply Ha. exact Hd.
-          -- right. right. right. split; [exact Hevq|]. unfold settled in *.
-             rewrite (target_agree e q _ (lasts s)) by (intros d _; apply HL).
-             destruct (target (lasts s) q e) as [g|]; [|exact I]. cbn [ports] in Hph, Hsr |- *. rewrite Hph, Hsr. exact Hst.
+          -- right. right. right. right. right. left. exists sn. split; [exact Hla|]. intros d Hd. rewrite HL. apply Ha. exact Hd.
+          -- right. right. right. right. right. right. split; [exact Hevq|]. unfold settled in *.
+             rewrite (target_ext s s' q e Hdo) by (intros d _; apply HL).
+             destruct (target s q e) as [g|]; [|exact I]. rewrite Hph, Hsr. exact Hst.
         * (* a change was detected *)
           destruct (in_dec Nat.eq_dec p (deps e)) as [Hin|Hnin].
-          -- right. left. exists p. split; [exact Hin|]. subst chg'. rewrite ?Ev. left. reflexivity.
-          -- assert (Hag : agree (deps e) (lasts {| ports := upd V E (ports s) p x'; all_ids := all_ids s; pass := Some {| to_read := rest; changed := chg' |} |}) (lasts s)).
+          -- right. right. right. left. exists p. split; [exact Hin|]. subst chg'. rewrite ?Ev. left. reflexivity.
+          -- assert (Hag : agree (deps e) (lasts s') (lasts s)).
              { intros d Hd. apply HLo. intros ->. contradiction. }
              destruct Hrest as [(sn & Hla & Ha)|(Hevq & Hst)].
-             ++ right. right. left. exists sn. split; [exact Hla|]. intros d Hd. rewrite Hag by exact Hd. apply Ha. exact Hd.
-             ++ right. right. right. split; [exact Hevq|]. unfold settled in *.
-                rewrite (target_agree e q _ (lasts s) Hag).
-                destruct (target (lasts s) q e) as [g|]; [|exact I]. cbn [ports] in Hph, Hsr |- *. rewrite Hph, Hsr. exact Hst.
+             ++ right. right. right. right. right. left. exists sn. split; [exact Hla|]. intros d Hd. rewrite Hag by exact Hd. apply Ha. exact Hd.
+             ++ right. right. right. right. right. right. split; [exact Hevq|]. unfold settled in *.
+                rewrite (target_ext s s' q e Hdo Hag).
+                destruct (target s q e) as [g|]; [|exact I]. rewrite Hph, Hsr. exact Hst.
     - intros q Hq He Hph. destruct (Nat.eq_dec q p) as [->|Hn].
       + rewrite Hsame. reflexivity.
       + rewrite Hother in * by exact Hn. apply (inv_sync s HI q Hq He Hph).
@@ -406,31 +504,35 @@ Section HubThm.
     - intros q Hq He. destruct (Nat.eq_dec q p) as [->|Hn].
       + rewrite Hsame in *. apply (inv_idle s HI p Hq He).
       + rewrite Hother in * by exact Hn. apply (inv_idle s HI q Hq He).
+    - intros q Hq He. destruct (Nat.eq_dec q p) as [->|Hn].
+      + rewrite Hsame in *. apply (inv_off s HI p Hq He).
+      + rewrite Hother in * by exact Hn. apply (inv_off s HI q Hq He).
   Qed.
 
   (* ---------------- PassEnd *)
   Definition unrefresh (x : port) : port :=
     match ph x with
-    | Refreshing => {| src := src x; last := last x; expr := expr x; evq := evq x; ph := Idle; forced := forced x |}
+    | Refreshing => {| src := src x; last := last x; expr := expr x; evq := evq x; ph := Idle; forced := forced x; en := en x |}
     | _ => x
     end.
 
-  Definition triggered (chg : list pid) (q : pid) (e : E) (x : port) : bool :=
-    forced x || existsb (fun d => negb (Nat.eqb d q) && mem d chg) (deps e).
+  Definition triggered (fall : bool) (chg : list pid) (q : pid) (e : E) (x : port) : bool :=
+    fall || forced x || existsb (fun d => negb (Nat.eqb d q) && mem d chg) (deps e).
 
-  Lemma end_pass_port_spec L chg q (x : port) :
-    let y := end_pass_port V E deps L chg q x in
-    src y = src x /\ last y = last x /\ expr y = expr x /\ ph y = ph (unrefresh x)
-    /\ match expr x with
+  Lemma end_pass_port_spec fall L chg q (x : port) :
+    let y := end_pass_port V E deps fall L chg q x in
+    src y = src x /\ last y = last x /\ expr y = expr x /\ en y = en x /\ ph y = ph (unrefresh x)
+    /\ match (if en x then expr x else None) with
        | None => evq y = evq x /\ forced y = false
-       | Some e => if triggered chg q e x then evq y = evq x ++ [L] /\ forced y = false
+       | Some e => if triggered fall chg q e x then evq y = evq x ++ [L] /\ forced y = false
                    else evq y = evq x /\ forced y = forced x
        end.
   Proof.
     cbv zeta. unfold end_pass_port, triggered, unrefresh.
-    destruct x as [sr la ex ev p0 fo]. cbn [ph src last expr evq forced].
-    destruct p0; cbn [ph src last expr evq forced]; destruct ex as [e|]; cbn [ph src last expr evq forced];
-      try (match goal with |- context [if ?b then _ else _] => destruct b end; cbn [ph src last expr evq forced]);
+    destruct x as [sr la ex ev p0 fo en0]. cbn [ph src last expr evq forced en].
+    destruct p0; cbn [ph src last expr evq forced en]; destruct en0; cbn [ph src last expr evq forced en];
+      destruct ex as [e|]; cbn [ph src last expr evq forced en];
+      try (match goal with |- context [if ?b then _ else _] => destruct b end; cbn [ph src last expr evq forced en]);
       repeat split; reflexivity.
   Qed.
 
@@ -439,39 +541,49 @@ Section HubThm.
 
   Lemma inv_PassEnd s s' : Inv s -> step s PassEnd = Some s' -> Inv s'.
   Proof.
-    intros HI H. cbn [step] in H. destruct (pass s) as [[tr chg]|] eqn:Ep; [|discriminate].
+    intros HI H. cbn [Hub.step] in H. destruct (pass s) as [[tr chg]|] eqn:Ep; [|discriminate].
     destruct tr; [|discriminate]. injection H as <-.
-    set (L := lasts s).
-    set (s' := {| ports := fun q => if mem q (all_ids s) then end_pass_port V E deps L chg q (ports s q) else ports s q;
-                  all_ids := all_ids s; pass := None |}).
-    assert (Hport : forall q, In q (all_ids s) -> ports s' q = end_pass_port V E deps L chg q (ports s q)).
+    set (L := lasts s). set (fall := force_all s).
+    set (s' := {| ports := fun q => if mem q (all_ids s) then end_pass_port V E deps fall L chg q (ports s q) else ports s q;
+                  all_ids := all_ids s; pass := None; force_all := false |}).
+    assert (Hport : forall q, In q (all_ids s) -> ports s' q = end_pass_port V E deps fall L chg q (ports s q)).
     { intros q Hq. subst s'. cbn [ports]. apply mem_In in Hq. rewrite Hq. reflexivity. }
+    assert (HE : forall d, en (ports s' d) = en (ports s d)).
+    { intros d. subst s'. cbn [ports]. destruct (mem d (all_ids s)); [|reflexivity]. apply (end_pass_port_spec fall L chg d (ports s d)). }
     assert (HL : forall p, lasts s' p = lasts s p).
-    { apply lasts_ext; [reflexivity|]. intros p Hp. rewrite (Hport p Hp). apply (end_pass_port_spec L chg p (ports s p)). }
+    { apply lasts_ext; [reflexivity|]. intros p Hp. rewrite (Hport p Hp).
+      destruct (end_pass_port_spec fall L chg p (ports s p)) as (_ & Hl & _ & Hen & _). split; assumption. }
     constructor; cbn [all_ids pass]; fold s'.
     - intros q e Hq He. rewrite (Hport q Hq) in He.
-      destruct (end_pass_port_spec L chg q (ports s q)) as (Hs & Hl & Hx & Hp & Hrest). rewrite Hx in He. rewrite He in Hrest.
+      destruct (end_pass_port_spec fall L chg q (ports s q)) as (Hs & Hl & Hx & Hen & Hp & Hrest). rewrite Hx in He.
       pose proof (inv_cov s HI q e Hq He) as Hc. pose proof (inv_noself s HI q e Hq He) as Hns.
-      unfold covered. rewrite (Hport q Hq).
-      destruct (triggered chg q e (ports s q)) eqn:Et.
-      + destruct Hrest as [Hev Hfo]. right. right. left. exists L. split; [exists (evq (ports s q)); exact Hev|].
+      pose proof (dep_off_ext s s' e HE) as Hdo.
+      unfold covered. rewrite (Hport q Hq). rewrite Hen, Hdo.
+      destruct (en (ports s q)) eqn:Eenq; [|left; reflexivity].
+      rewrite He in Hrest.
+      destruct (triggered fall chg q e (ports s q)) eqn:Et.
+      + destruct Hrest as [Hev Hfo]. right. right. right. right. right. left. exists L. split; [exists (evq (ports s q)); exact Hev|].
         intros d _. rewrite HL. reflexivity.
-      + destruct Hrest as [Hev Hfo]. rewrite Hev, Hfo. unfold triggered in Et. apply orb_false_iff in Et. destruct Et as [Et1 Et2].
-        unfold covered in Hc. destruct Hc as [Hf|[(d & Hd & Hin)|[(sn & Hla & Ha)|(Hevq & Hst)]]].
-        * rewrite Hf in Et1. discriminate.
+      + destruct Hrest as [Hev Hfo]. rewrite Hev, Hfo. unfold triggered in Et.
+        apply orb_false_iff in Et. destruct Et as [Et0 Et2]. apply orb_false_iff in Et0. destruct Et0 as [Et0 Et1].
+        unfold covered in Hc. destruct Hc as [H|[H|[H|[(d & Hd & Hin)|[H|[(sn & Hla & Ha)|(Hevq & Hst)]]]]]].
+        * rewrite Eenq in H. discriminate.
+        * rewrite H in Et1. discriminate.
+        * subst fall. rewrite H in Et0. discriminate.
         * exfalso. unfold changed_of in Hin. rewrite Ep in Hin. cbn [changed] in Hin.
           assert (Hex : existsb (fun d0 => negb (Nat.eqb d0 q) && mem d0 chg) (deps e) = true).
           { apply existsb_exists. exists d. split; [exact Hd|]. apply andb_true_iff. split.
             - apply negb_true_iff. apply Nat.eqb_neq. intros ->. contradiction.
             - apply mem_In. exact Hin. }
           rewrite Hex in Et2. discriminate.
-        * right. right. left. exists sn. split; [exact Hla|]. intros d Hd. rewrite HL. apply Ha. exact Hd.
-        * right. right. right. split; [exact Hevq|]. unfold settled in *.
-          rewrite (target_agree e q _ (lasts s)) by (intros d _; apply HL).
-          destruct (target (lasts s) q e) as [g|]; [|exact I]. rewrite Hp, Hs.
+        * right. right. right. right. left. exact H.
+        * right. right. right. right. right. left. exists sn. split; [exact Hla|]. intros d Hd. rewrite HL. apply Ha. exact Hd.
+        * right. right. right. right. right. right. split; [exact Hevq|]. unfold settled in *.
+          rewrite (target_ext s s' q e Hdo) by (intros d _; apply HL).
+          destruct (target s q e) as [g|]; [|exact I]. rewrite Hp, Hs.
           unfold unrefresh. destruct (ph (ports s q)) eqn:E0; cbn [ph]; rewrite ?E0; exact Hst.
     - intros q Hq He Hph. rewrite (Hport q Hq) in *.
-      destruct (end_pass_port_spec L chg q (ports s q)) as (Hs & Hl & Hx & Hp & _). rewrite Hs, Hl. rewrite Hx in He. rewrite Hp in Hph.
+      destruct (end_pass_port_spec fall L chg q (ports s q)) as (Hs & Hl & Hx & _ & Hp & _). rewrite Hs, Hl. rewrite Hx in He. rewrite Hp in Hph.
       destruct (ph (ports s q)) eqn:E0.
       + apply (inv_sync s HI q Hq He). left. exact E0.
       + apply (inv_sync s HI q Hq He). right. eexists. exact E0.
@@ -479,65 +591,161 @@ Section HubThm.
       + destruct (inv_refresh s HI q Hq E0) as (ps & Hps & Hor). rewrite Ep in Hps. injection Hps as <-. cbn [to_read] in Hor.
         destruct Hor as [[]|Heq]. exact Heq.
     - intros q Hq Hph. rewrite (Hport q Hq) in Hph.
-      destruct (end_pass_port_spec L chg q (ports s q)) as (_ & _ & _ & Hp & _). rewrite Hp in Hph.
+      destruct (end_pass_port_spec fall L chg q (ports s q)) as (_ & _ & _ & _ & Hp & _). rewrite Hp in Hph.
       exfalso. apply (unrefresh_ph (ports s q)). exact Hph.
     - intros ps Hps. discriminate.
     - intros q e Hq He. rewrite (Hport q Hq) in He.
-      destruct (end_pass_port_spec L chg q (ports s q)) as (_ & _ & Hx & _ & _). rewrite Hx in He. apply (inv_noself s HI q e Hq He).
+      destruct (end_pass_port_spec fall L chg q (ports s q)) as (_ & _ & Hx & _). rewrite Hx in He. apply (inv_noself s HI q e Hq He).
     - intros q Hq He. rewrite (Hport q Hq) in *.
-      destruct (end_pass_port_spec L chg q (ports s q)) as (_ & _ & Hx & Hp & _). rewrite Hx in He. rewrite Hp.
+      destruct (end_pass_port_spec fall L chg q (ports s q)) as (_ & _ & Hx & _ & Hp & _). rewrite Hx in He. rewrite Hp.
       pose proof (inv_idle s HI q Hq He) as Hi. unfold unrefresh. rewrite Hi. exact Hi.
+    - intros q Hq He. rewrite (Hport q Hq) in *.
+      destruct (end_pass_port_spec fall L chg q (ports s q)) as (_ & _ & _ & Hen & Hp & Hrest). rewrite Hen in He.
+      destruct (inv_off s HI q Hq He) as [Hi Hq0]. rewrite He in Hrest. destruct Hrest as [Hev _]. rewrite Hp, Hev.
+      split; [unfold unrefresh; rewrite Hi; exact Hi|exact Hq0].
+  Qed.
+
+  (* ---------------- Enable *)
+  Lemma inv_Enable s p s' : Inv s -> wf_event s (Enable p) -> step s (Enable p) = Some s' -> Inv s'.
+  Proof.
+    intros HI Hp H. cbn [Hub.step wf_event] in *. destruct (en (ports s p)) eqn:Een; [injection H as <-; exact HI|].
+    injection H as <-. destruct (inv_off s HI p Hp Een) as [Hidle Hevq].
+    set (x' := {| src := src (ports s p); last := last (ports s p); expr := expr (ports s p); evq := evq (ports s p);
+                  ph := ph (ports s p); forced := match expr (ports s p) with Some _ => true | None => forced (ports s p) end; en := true |}).
+    unfold set_port. cbn [ports all_ids pass force_all].
+    constructor; cbn [ports all_ids pass force_all].
+    - intros q e Hq He. unfold covered. cbn [force_all]. right. right. left. reflexivity.
+    - intros q Hq He Hph. destruct (Nat.eq_dec q p) as [->|Hn].
+      + rewrite upd_eq in *. subst x'. cbn [src last expr ph] in *. apply (inv_sync s HI p Hp He Hph).
+      + rewrite upd_neq in * by exact Hn. apply (inv_sync s HI q Hq He Hph).
+    - intros q Hq Hph. destruct (Nat.eq_dec q p) as [->|Hn].
+      + rewrite upd_eq in Hph. subst x'. cbn [ph] in Hph. rewrite Hidle in Hph. discriminate.
+      + rewrite upd_neq in * by exact Hn. apply (inv_refresh s HI q Hq Hph).
+    - intros ps Hps. apply (inv_toread s HI _ Hps).
+    - intros q e Hq He. destruct (Nat.eq_dec q p) as [->|Hn].
+      + rewrite upd_eq in He. subst x'. cbn [expr] in He. apply (inv_noself s HI p e Hp He).
+      + rewrite upd_neq in He by exact Hn. apply (inv_noself s HI q e Hq He).
+    - intros q Hq He. destruct (Nat.eq_dec q p) as [->|Hn].
+      + rewrite upd_eq in *. subst x'. cbn [expr ph] in *. exact Hidle.
+      + rewrite upd_neq in * by exact Hn. apply (inv_idle s HI q Hq He).
+    - intros q Hq He. destruct (Nat.eq_dec q p) as [->|Hn].
+      + rewrite upd_eq in He. subst x'. cbn [en] in He. discriminate.
+      + rewrite upd_neq in * by exact Hn. apply (inv_off s HI q Hq He).
+  Qed.
+
+  (* ---------------- Disable *)
+  Lemma inv_Disable s p s' : Inv s -> wf_event s (Disable p) -> step s (Disable p) = Some s' -> Inv s'.
+  Proof.
+    intros HI (Hp & Hevq & Hidle) H. cbn [Hub.step] in H. injection H as <-.
+    set (x' := {| src := src (ports s p); last := last (ports s p); expr := expr (ports s p); evq := evq (ports s p);
+                  ph := ph (ports s p); forced := forced (ports s p); en := false |}).
+    set (s' := set_port V E s p x').
+    assert (Hsame : ports s' p = x') by (subst s'; apply set_port_same).
+    assert (Hother : forall q, q <> p -> ports s' q = ports s q) by (intros q Hn; subst s'; apply set_port_other; exact Hn).
+    assert (Hids : all_ids s' = all_ids s) by reflexivity.
+    assert (Hpass : pass s' = pass s) by reflexivity.
+    assert (Hfa : force_all s' = force_all s) by reflexivity.
+    assert (HLo : forall r, r <> p -> lasts s' r = lasts s r).
+    { intros r Hn. unfold Hub.lasts. rewrite Hids, (Hother r Hn). reflexivity. }
+    assert (HEo : forall d, d <> p -> en (ports s' d) = en (ports s d)) by (intros d Hn; rewrite (Hother d Hn); reflexivity).
+    clearbody s'.
+    constructor; rewrite ?Hids, ?Hpass.
+    - intros q e Hq He. destruct (Nat.eq_dec q p) as [->|Hn].
+      + unfold covered. left. rewrite Hsame. reflexivity.
+      + rewrite (Hother q Hn) in He.
+        destruct (in_dec Nat.eq_dec p (deps e)) as [Hin|Hnin].
+        * unfold covered. right. right. right. right. left. unfold Hub.dep_off. apply existsb_exists. exists p.
+          split; [exact Hin|]. rewrite Hsame. reflexivity.
+        * pose proof (inv_cov s HI q e Hq He) as Hc.
+          assert (Hdo : dep_off s' e = dep_off s e).
+          { unfold Hub.dep_off. clear -Hnin HEo. induction (deps e) as [|d l IH]; [reflexivity|]. cbn [existsb].
+            rewrite HEo by (intros ->; apply Hnin; left; reflexivity). rewrite IH; [reflexivity|]. intros Hc. apply Hnin. right. exact Hc. }
+          assert (Hag : agree (deps e) (lasts s') (lasts s)) by (intros d Hd; apply HLo; intros ->; contradiction).
+          unfold covered in *. rewrite (Hother q Hn), Hdo, Hfa. unfold changed_of in *. rewrite Hpass.
+          destruct Hc as [H|[H|[H|[(d & Hd & Hin)|[H|[(sn & Hla & Ha)|(Hev & Hst)]]]]]].
+          -- left. exact H.
+          -- right. left. exact H.
+          -- right. right. left. exact H.
+          -- right. right. right. left. exists d. split; [exact Hd|exact Hin].
+          -- right. right. right. right. left. exact H.
+          -- right. right. right. right. right. left. exists sn. split; [exact Hla|]. intros d Hd. rewrite Hag by exact Hd. apply Ha. exact Hd.
+          -- right. right. right. right. right. right. split; [exact Hev|]. unfold settled in *.
+             rewrite (target_ext s s' q e Hdo Hag). exact Hst.
+    - intros q Hq He Hph. destruct (Nat.eq_dec q p) as [->|Hn].
+      + rewrite Hsame in *. subst x'. cbn [src last expr ph] in *. apply (inv_sync s HI p Hp He Hph).
+      + rewrite (Hother q Hn) in *. apply (inv_sync s HI q Hq He Hph).
+    - intros q Hq Hph. destruct (Nat.eq_dec q p) as [->|Hn].
+      + rewrite Hsame in Hph. subst x'. cbn [ph] in Hph. rewrite Hidle in Hph. discriminate.
+      + rewrite (Hother q Hn) in *. apply (inv_refresh s HI q Hq Hph).
+    - intros ps Hps. apply (inv_toread s HI _ Hps).
+    - intros q e Hq He. destruct (Nat.eq_dec q p) as [->|Hn].
+      + rewrite Hsame in He. subst x'. cbn [expr] in He. apply (inv_noself s HI p e Hp He).
+      + rewrite (Hother q Hn) in He. apply (inv_noself s HI q e Hq He).
+    - intros q Hq He. destruct (Nat.eq_dec q p) as [->|Hn].
+      + rewrite Hsame in *. subst x'. cbn [expr ph] in *. exact Hidle.
+      + rewrite (Hother q Hn) in *. apply (inv_idle s HI q Hq He).
+    - intros q Hq He. destruct (Nat.eq_dec q p) as [->|Hn].
+      + rewrite Hsame. subst x'. cbn [ph evq]. split; assumption.
+      + rewrite (Hother q Hn) in *. apply (inv_off s HI q Hq He).
   Qed.
 
   (* ---------------- every step preserves the invariant; so does every run *)
   Theorem step_inv s ev s' : Inv s -> wf_event s ev -> step s ev = Some s' -> Inv s'.
   Proof.
-    intros HI Hwf H. destruct ev as [| p | | q | q | p v | q e].
+    intros HI Hwf H. destruct ev as [| p | p | | q | q | p v | q e | p | p].
     - apply (inv_PassBegin s s' HI H).
     - apply (inv_PassRead s p s' HI H).
+    - apply (inv_PassSkip s p s' HI H).
     - apply (inv_PassEnd s s' HI H).
     - apply (inv_Eval s q s' HI Hwf H).
     - apply (inv_WriteEnd s q s' HI Hwf H).
     - apply (inv_SourceSet s p v s' HI Hwf H).
     - apply (inv_SetExpr s q e s' HI Hwf H).
+    - apply (inv_Enable s p s' HI Hwf H).
+    - apply (inv_Disable s p s' HI Hwf H).
   Qed.
 
   Theorem run_inv tr : forall s s', Inv s -> run_wf s tr -> run s tr = Some s' -> Inv s'.
   Proof.
-    induction tr as [|ev r IH]; intros s s' HI Hwf H; cbn [run run_wf] in *.
+    induction tr as [|ev r IH]; intros s s' HI Hwf H; cbn [Hub.run run_wf] in *.
     - injection H as <-. exact HI.
     - destruct Hwf as [Hw Hr]. destruct (step s ev) as [s1|] eqn:Es; [|discriminate].
       apply (IH s1 s'); [apply (step_inv s ev s1 HI Hw Es)|exact Hr|exact H].
   Qed.
 
-  (* ---------------- convergence: in every quiescent reachable state every port follows its expression *)
+  (* ---------------- convergence: in every quiescent reachable state every enabled port follows its expression *)
   Theorem inv_quiescent_follows s : Inv s -> quiescent s -> forall q, In q (all_ids s) -> follows s q.
   Proof.
-    intros HI [Hpass Hq] q Hin. destruct (Hq q Hin) as (Hevq & Hph & Hfo & Hsl).
-    unfold follows. destruct (expr (ports s q)) as [e|] eqn:He; [|exact I].
+    intros HI (Hpass & Hfall & Hq) q Hin. destruct (Hq q Hin) as (Hevq & Hph & Hfo & Hsl).
+    unfold Hub.follows. destruct (en (ports s q)) eqn:Een; [|exact I].
+    destruct (expr (ports s q)) as [e|] eqn:He; [|exact I].
     pose proof (inv_cov s HI q e Hin He) as Hc. unfold covered in Hc.
-    destruct Hc as [Hf|[(d & Hd & Hc)|[(sn & [l' Hl] & Ha)|(_ & Hst)]]].
-    - rewrite Hf in Hfo. discriminate.
+    destruct Hc as [H|[H|[H|[(d & Hd & Hc)|[H|[(sn & [l' Hl] & Ha)|(_ & Hst)]]]]]].
+    - rewrite Een in H. discriminate.
+    - rewrite H in Hfo. discriminate.
+    - rewrite H in Hfall. discriminate.
     - unfold changed_of in Hc. rewrite Hpass in Hc. destruct Hc.
+    - rewrite H. exact I.
     - rewrite Hevq in Hl. destruct l'; discriminate.
-    - unfold settled, target in Hst.
+    - unfold settled, target in Hst. destruct (dep_off s e); [exact I|].
       destruct (feval e (lasts s)) as [v|]; [|exact I]. destruct (coerce q v) as [v'|]; [|exact I].
-      rewrite Hph in Hst. split; [apply veqb_spec; symmetry; exact Hst|exact Hsl].
+      rewrite Hph in Hst. split; [apply veqb_spec; symmetry; exact Hst|apply Hsl; reflexivity].
   Qed.
 
   (* the initial state: registered ports without expressions, nothing queued, nothing running *)
   Definition pristine (s : state) : Prop :=
     pass s = None /\ forall q, In q (all_ids s) ->
-      expr (ports s q) = None /\ ph (ports s q) = Idle.
+      expr (ports s q) = None /\ ph (ports s q) = Idle /\ evq (ports s q) = [].
 
   Lemma pristine_inv s : pristine s -> Inv s.
   Proof.
     intros [Hp Hq]. constructor.
     - intros q e Hin He. rewrite (proj1 (Hq q Hin)) in He. discriminate.
     - intros q Hin He. exfalso. apply He. apply (Hq q Hin).
-    - intros q Hin Hph. rewrite (proj2 (Hq q Hin)) in Hph. discriminate.
+    - intros q Hin Hph. rewrite (proj1 (proj2 (Hq q Hin))) in Hph. discriminate.
     - intros ps Hps. rewrite Hp in Hps. discriminate.
     - intros q e Hin He. rewrite (proj1 (Hq q Hin)) in He. discriminate.
+    - intros q Hin _. apply (Hq q Hin).
     - intros q Hin _. apply (Hq q Hin).
   Qed.
 
@@ -550,14 +758,14 @@ Section HubThm.
 
   (* ---------------- re-evaluation after every change of a dependency, and only then *)
   Theorem reeval_on_dep_change s chg q e d :
-    pass s = Some {| to_read := []; changed := chg |} -> In q (all_ids s) -> expr (ports s q) = Some e ->
-    In d (deps e) -> d <> q -> In d chg ->
+    pass s = Some {| to_read := []; changed := chg |} -> In q (all_ids s) -> en (ports s q) = true ->
+    expr (ports s q) = Some e -> In d (deps e) -> d <> q -> In d chg ->
     exists s', step s PassEnd = Some s' /\ evq (ports s' q) = evq (ports s q) ++ [lasts s].
   Proof.
-    intros Hp Hq He Hd Hn Hc. cbn [step]. rewrite Hp. eexists. split; [reflexivity|]. cbn [ports].
+    intros Hp Hq Hen He Hd Hn Hc. cbn [Hub.step]. rewrite Hp. eexists. split; [reflexivity|]. cbn [ports].
     apply mem_In in Hq. rewrite Hq.
-    destruct (end_pass_port_spec (lasts s) chg q (ports s q)) as (_ & _ & _ & _ & Hrest). rewrite He in Hrest.
-    assert (Ht : triggered chg q e (ports s q) = true).
+    destruct (end_pass_port_spec (force_all s) (lasts s) chg q (ports s q)) as (_ & _ & _ & _ & _ & Hrest). rewrite Hen, He in Hrest.
+    assert (Ht : triggered (force_all s) chg q e (ports s q) = true).
     { unfold triggered. apply orb_true_iff. right. apply existsb_exists. exists d. split; [exact Hd|].
       apply andb_true_iff. split; [apply negb_true_iff; apply Nat.eqb_neq; exact Hn|apply mem_In; exact Hc]. }
     rewrite Ht in Hrest. apply Hrest.
@@ -565,14 +773,15 @@ Section HubThm.
 
   Theorem no_eval_without_dep_change s chg q e :
     pass s = Some {| to_read := []; changed := chg |} -> In q (all_ids s) -> expr (ports s q) = Some e ->
-    forced (ports s q) = false -> (forall d, In d (deps e) -> d <> q -> ~ In d chg) ->
+    force_all s = false -> forced (ports s q) = false -> (forall d, In d (deps e) -> d <> q -> ~ In d chg) ->
     exists s', step s PassEnd = Some s' /\ evq (ports s' q) = evq (ports s q).
   Proof.
-    intros Hp Hq He Hf Hc. cbn [step]. rewrite Hp. eexists. split; [reflexivity|]. cbn [ports].
+    intros Hp Hq He Hfa Hf Hc. cbn [Hub.step]. rewrite Hp. eexists. split; [reflexivity|]. cbn [ports].
     apply mem_In in Hq. rewrite Hq.
-    destruct (end_pass_port_spec (lasts s) chg q (ports s q)) as (_ & _ & _ & _ & Hrest). rewrite He in Hrest.
-    assert (Ht : triggered chg q e (ports s q) = false).
-    { unfold triggered. rewrite Hf. cbn [orb]. apply not_true_is_false. intros Hex. apply existsb_exists in Hex.
+    destruct (end_pass_port_spec (force_all s) (lasts s) chg q (ports s q)) as (_ & _ & _ & _ & _ & Hrest).
+    destruct (en (ports s q)); [|apply Hrest]. rewrite He in Hrest.
+    assert (Ht : triggered (force_all s) chg q e (ports s q) = false).
+    { unfold triggered. rewrite Hfa, Hf. cbn [orb]. apply not_true_is_false. intros Hex. apply existsb_exists in Hex.
       destruct Hex as (d & Hd & Hand). apply andb_true_iff in Hand. destruct Hand as [Hne Hm].
       apply negb_true_iff in Hne. apply Nat.eqb_neq in Hne. apply mem_In in Hm. apply (Hc d Hd Hne Hm). }
     rewrite Ht in Hrest. apply Hrest.
